@@ -207,7 +207,7 @@ class Vector3d(Object3d):
         -------
         azimuth
         """
-        x, y = self.data[..., 0], self.data[..., 1]
+        x, y = self.data[..., 0].copy(), self.data[..., 1].copy()
         # avoid rounding errors
         x[np.isclose(x, 0)] = 0
         y[np.isclose(y, 0)] = 0
